@@ -138,7 +138,8 @@ func init() {
 		ID:    "C12",
 		Title: "URLSetSanitized keeps only safe image candidates under the WHATWG srcset parser",
 		Harnesses: []HarnessSpec{
-			{Pkg: "safehtml", Name: "vHarness_C12_three", Quick: []ParamRange{{"n1", 1, 1}, {"n2", 1, 1}, {"m2", 1, 2}, {"n3", 1, 1}, {"m3", 0, 1}}, Thorough: []ParamRange{{"n1", 1, 2}, {"n2", 1, 2}, {"m2", 1, 2}, {"n3", 1, 2}, {"m3", 0, 1}}, Reach: []string{"candidates", "two-candidates"},
+			{Pkg: "safehtml", Name: "vHarness_C12_three", Quick: []ParamRange{{"n1", 1, 1}, {"n2", 1, 1}, {"m2", 1, 2}, {"n3", 1, 1}, {"m3", 0, 1}}, Thorough: []ParamRange{{"n1", 1, 2}, {"n2", 1, 1}, {"m2", 1, 2}, {"n3", 1, 2}, {"m3", 0, 1}}, Reach: []string{"candidates", "two-candidates"},
+				Filter: func(p map[string]int) bool { return p["n1"]+p["n3"] <= 3 },
 				Desc: "three candidates U1 \" ,\" U2 \" \" D2 \",\" U3 [\" \" D3] with concrete separators and symbolic ASCII contents (an accepted, a dropped and another accepted candidate in one input)"},
 			{Pkg: "safehtml", Name: "vHarness_C12_sanitized", Quick: []ParamRange{{"ascii", 1, 1}, {"n", 0, 5}}, Thorough: []ParamRange{{"ascii", 1, 1}, {"n", 0, 7}}, Reach: []string{"candidates", "innocuous", "two-candidates"},
 				Desc: "re-parse the result with the WHATWG srcset splitter: every candidate URL is one URLSanitized keeps, descriptors number-like, bytes copied in order from the input, never empty"},
@@ -287,6 +288,8 @@ func init() {
 		ID:    "C14",
 		Title: "Data interpolated after a static URL prefix stays inside its URL component",
 		Harnesses: []HarnessSpec{
+			{Pkg: "template", Name: "vHarness_C02_joinprefix", Quick: []ParamRange{{"ctx", 0, 2}, {"flagb", 0, 1}, {"flaga", 0, 1}, {"na", 0, 2}, {"nb", 0, 2}}, Thorough: []ParamRange{{"ctx", 0, 2}, {"flagb", 0, 1}, {"flaga", 0, 1}, {"na", 0, 3}, {"nb", 0, 3}}, Reach: []string{"ambiguous"},
+				Desc: "static URL prefixes chosen by (nested) branches: after join the prefix is recorded as ambiguous whichever side carried the ambiguity, and an action after it is refused"},
 			{Pkg: "template", Name: "vHarness_C14_prefix", Quick: []ParamRange{{"ctx", 0, 5}, {"amp", -1, -1}, {"np", 1, 8}}, Thorough: []ParamRange{{"ctx", 0, 5}, {"amp", -1, -1}, {"np", 1, 10}}, Reach: []string{"accepted", "rejected"},
 				Desc: "prefixes without '&' in 6 URL contexts: accepted => no whitespace/control, no partial percent escape, scheme decided and not javascript (per WHATWG scanner), '/?#' or complete scheme present"},
 			{Pkg: "template", Name: "vHarness_C14_prefix", Quick: []ParamRange{{"ctx", 0, 3}, {"amp", 0, 0}, {"np", 1, 4}}, Thorough: []ParamRange{{"ctx", 0, 3}, {"amp", 0, 1}, {"np", 1, 5}},
@@ -360,6 +363,11 @@ func init() {
 			{Pkg: "template", Name: "vHarness_C04_linkrel", Quick: []ParamRange{{"n0", 0, 1}, {"n1", 0, 4}, {"n2", 0, 1}, {"n3", 0, 5}}, Thorough: []ParamRange{{"n0", 0, 2}, {"n1", 0, 5}, {"n2", 0, 2}, {"n3", 0, 5}}, Reach: []string{"accepted", "url-allowed"},
 				Filter: func(p map[string]int) bool { return p["n0"]+p["n1"]+p["n2"]+p["n3"] <= 6 && (p["n1"] == 4 || p["n3"] >= 4 || p["n0"]+p["n1"]+p["n3"] <= 3) },
 				Desc: "link rel chosen by a branch: the real escaper over <link rel=\"T0{{if}}T1{{else}}T2{{end}}T3\" href=\"{{.}}\"> with symbolic texts over [a-z -] and space; href accepts a plain string only if the emitted rel value holds a reviewed URL-compatible token on both branches"},
+			{Pkg: "template", Name: "vHarness_C04_element", Quick: []ParamRange{{"pre", 0, 4}, {"n", 0, 4}}, Thorough: []ParamRange{{"pre", 0, 4}, {"n", 0, 6}}, Reach: []string{"text", "element", "other"},
+				Desc: "which element a content position belongs to: after a symbolic ASCII text (from the data state, optionally behind a concrete tag beginning) the escaper's context.element is the element of the last start tag the HTML tokenizer reference saw (nothing for void elements and after end tags)"},
+			{Pkg: "template", Name: "vHarness_C04_urlchain", Quick: []ParamRange{{"rel", 0, 2}, {"le", 1, 6}, {"la", 3, 10}}, Thorough: []ParamRange{{"rel", 0, 10}, {"le", 1, 8}, {"la", 3, 10}}, Reach: []string{"url-context", "rejected"},
+				Filter: func(p map[string]int) bool { return p["rel"] == 0 || (p["le"] == 4 && p["la"] == 4) },
+				Desc: "URL contexts always run the URL sanitizer and normalizer: for symbolic (element, attribute) names whose reviewed class is URL, TrustedResourceURL-or-URL or TrustedResourceURL the chain chosen by sanitizerForContext holds the class's sanitizer and _normalizeURL"},
 			{Pkg: "template", Name: "vHarness_C04_condnames", Quick: []ParamRange{{"swap", 0, 1}, {"le", 1, 6}, {"la", 2, 6}}, Thorough: []ParamRange{{"swap", 0, 1}, {"le", 1, 8}, {"la", 2, 10}}, Reach: []string{"accepted", "rejected"},
 				Desc: "attribute value with a conditional element name (two symbolic alternatives): accepted => both alternatives are listed for the attribute with the same reviewed class"},
 			{Pkg: "template", Name: "vHarness_C04_voidnames", Quick: []ParamRange{{"v", 0, 3}, {"o", 0, 3}, {"swap", 0, 1}, {"n", 1, 2}}, Reach: []string{"closed"},
@@ -411,8 +419,12 @@ func init() {
 			{Pkg: "template", Name: "vHarness_C02_url2", Quick: []ParamRange{{"schemechars", 0, 0}, {"ctx", 0, 0}, {"n1", 0, 3}, {"n2", 0, 3}}, Thorough: []ParamRange{{"schemechars", 0, 0}, {"ctx", 0, 0}, {"n1", 0, 4}, {"n2", 0, 7}},
 				Filter: func(p map[string]int) bool { return p["n1"]+p["n2"] <= 6 || (p["n1"] == 4 && p["n2"] == 7) },
 				Desc: "two adjacent actions, arbitrary ASCII pieces"},
-			{Pkg: "template", Name: "vHarness_C02_joinprefix", Quick: []ParamRange{{"ctx", 0, 4}, {"flagb", 0, 1}, {"na", 0, 2}, {"nb", 0, 2}}, Thorough: []ParamRange{{"ctx", 0, 4}, {"flagb", 0, 1}, {"na", 0, 3}, {"nb", 0, 3}}, Reach: []string{"ambiguous"},
+			{Pkg: "template", Name: "vHarness_C02_joinprefix", Quick: []ParamRange{{"ctx", 0, 4}, {"flagb", 0, 1}, {"flaga", 0, 1}, {"na", 0, 2}, {"nb", 0, 2}}, Thorough: []ParamRange{{"ctx", 0, 4}, {"flagb", 0, 1}, {"flaga", 0, 1}, {"na", 0, 3}, {"nb", 0, 3}}, Reach: []string{"ambiguous"},
 				Desc: "branches with different static attribute prefixes (symbolic): join records the ambiguity and an action after it is refused in URL and enumerated attributes, whichever prefix was kept"},
+			{Pkg: "safehtml", Name: "vHarness_C12_sanitized", Quick: []ParamRange{{"ascii", 1, 1}, {"n", 0, 4}}, Thorough: []ParamRange{{"ascii", 1, 1}, {"n", 0, 6}},
+				Desc: "srcset candidates (the sanitizer behind _sanitizeURLSet): every candidate the WHATWG srcset parser finds in URLSetSanitized(s) has a URL that URLSanitized leaves unchanged"},
+			{Pkg: "template", Name: "vHarness_C01_text", Quick: []ParamRange{{"pre", 5, 5}, {"n", 8, 8}}, Thorough: []ParamRange{{"pre", 5, 5}, {"n", 7, 9}},
+				Desc: "where a script/style body ends: the escaper's context after a style-body text agrees with the HTML tokenizer (an action after a miscounted end tag would be sanitized as HTML text inside the element)"},
 			{Pkg: "template", Name: "vHarness_C02_mangle", Quick: []ParamRange{{"relvar", 0, 1}, {"ctx", 0, 5}, {"n1", 0, 2}, {"n2", 0, 2}}, Thorough: []ParamRange{{"relvar", 0, 1}, {"ctx", 0, 5}, {"n1", 0, 3}, {"n2", 0, 3}},
 				Filter: func(p map[string]int) bool { return p["relvar"] == 0 || p["ctx"] == 4 }, Reach: []string{"same-name"},
 				Desc: "two URL-attribute contexts with symbolic static prefixes (and differing rel): equal mangled names => equal sanitizer chains"},
@@ -438,31 +450,37 @@ func init() {
 		Title: "Template markup structure is never altered by untrusted data (unit lemmas)",
 		Harnesses: []HarnessSpec{
 			{Pkg: "template", Name: "vHarness_C01_text", Quick: []ParamRange{{"pre", 0, 16}, {"n", 0, 4}}, Thorough: []ParamRange{{"pre", 0, 16}, {"n", 0, 6}}, Reach: []string{"accepted", "rejected", "stable"},
-				Filter: func(p map[string]int) bool { return p["n"] <= 5 || p["pre"] == 0 || p["pre"] == 4 || p["pre"] == 6 || p["pre"] == 12 || p["pre"] == 15 },
+				Filter: func(p map[string]int) bool { return p["n"] <= 5 || p["pre"] == 0 || p["pre"] == 4 },
 				Desc: "L1+L2: one ASCII text node from 17 (context, tokenizer state) pre-states through the real escapeText: the rewritten text has the author's tags/attributes and no comment; the resulting context agrees with the tokenizer state of the output"},
 			{Pkg: "template", Name: "vHarness_C01_text", Quick: []ParamRange{{"pre", 0, 0}, {"n", 5, 5}}, Thorough: []ParamRange{{"pre", 17, 18}, {"n", 0, 9}},
 				Desc: "longer text from the data state (reaches <xmp>); script-data escaped pre-states"},
 			{Pkg: "template", Name: "vHarness_C01_text", Quick: []ParamRange{{"pre", 17, 17}, {"n", 9, 9}}, Thorough: []ParamRange{{"pre", 4, 4}, {"n", 7, 9}},
 				Desc: "script double-escaped pre-state with a 9-byte text (reaches </script>)"},
+			{Pkg: "template", Name: "vHarness_C01_text", Quick: []ParamRange{{"pre", 5, 5}, {"n", 8, 8}}, Thorough: []ParamRange{{"pre", 5, 5}, {"n", 7, 9}},
+				Desc: "style element body with an 8-byte text (reaches </style followed by any byte: the end-tag separator set of indexTagEnd)"},
 			{Pkg: "template", Name: "vHarness_C01_action", Quick: []ParamRange{{"pre", 0, 18}, {"n", 0, 3}}, Thorough: []ParamRange{{"pre", 0, 18}, {"n", 0, 4}}, Reach: []string{"accepted", "rejected"},
 				Desc: "L3: where sanitizerForContext(nudge(c)) accepts an action the tokenizer is in a text or quoted-value state and the sanitized data leaves its state and counters unchanged"},
 			{Pkg: "template", Name: "vHarness_C01_join", Quick: []ParamRange{{"a", 0, 16}, {"b", 0, 16}}, Reach: []string{"joined", "rejected"},
 				Desc: "L4: join(a, b) not an error => the joined context agrees with the tokenizer state of both branches"},
 			{Pkg: "template", Name: "vHarness_C01_range", Quick: []ParamRange{{"prefix", 0, 11}, {"n0", 0, 1}, {"n1", 0, 2}, {"n2", 0, 2}, {"n3", 1, 1}, {"nd", 1, 1}},
-				Thorough: []ParamRange{{"prefix", 0, 11}, {"n0", 0, 2}, {"n1", 0, 2}, {"n2", 0, 2}, {"n3", 0, 2}, {"nd", 1, 2}}, Reach: []string{"accepted", "rejected"}, Eager: true,
+				Thorough: []ParamRange{{"prefix", 0, 11}, {"n0", 0, 1}, {"n1", 0, 2}, {"n2", 0, 2}, {"n3", 0, 2}, {"nd", 1, 2}}, Reach: []string{"accepted", "rejected"}, Eager: true,
+				Filter: func(p map[string]int) bool { return p["nd"] == 1 || p["n0"]+p["n1"]+p["n2"]+p["n3"] <= 4 },
 				Desc: "composition over a loop: the real escapeBranch (with its re-entry pass) over P T0 {{range .}}T1 {{.}} T2{{end}} T3 with symbolic ASCII texts; the assembled output for 0, 1 and 2 iterations has the same token stream for an inert and a symbolic data value"},
 			{Pkg: "template", Name: "vHarness_C01_loopexit", Quick: []ParamRange{{"kind", 0, 1}, {"prefix", 0, 5}, {"n0", 0, 0}, {"n1", 0, 3}, {"n2", 0, 1}, {"n3", 0, 1}, {"n4", 0, 0}, {"nd", 1, 1}},
-				Thorough: []ParamRange{{"kind", 0, 1}, {"prefix", 0, 11}, {"n0", 0, 1}, {"n1", 0, 3}, {"n2", 0, 2}, {"n3", 0, 1}, {"n4", 0, 1}, {"nd", 1, 2}}, Reach: []string{"rejected"}, Eager: true,
+				Thorough: []ParamRange{{"kind", 0, 1}, {"prefix", 0, 11}, {"n0", 0, 1}, {"n1", 0, 3}, {"n2", 0, 2}, {"n3", 0, 1}, {"n4", 0, 1}, {"nd", 1, 1}}, Reach: []string{"rejected"}, Eager: true,
 				Desc: "loop exits: P T0 {{range .}}T1{{if .}}{{break|continue}}{{end}}T2{{end}} T3 {{.}} T4 - the escaper refuses the node (panic, nothing executed) or the output after an early exit has the same token stream for an inert and a symbolic data value"},
-			{Pkg: "template", Name: "vHarness_C01_call", Quick: []ParamRange{{"prefix", 0, 6}, {"rec", 0, 1}, {"mid", 0, 1}, {"n0", 0, 0}, {"n1", 0, 1}, {"n2", 0, 1}, {"n5", 0, 1}, {"n3", 0, 0}, {"n4", 0, 2}, {"nd", 1, 1}},
-				Thorough: []ParamRange{{"prefix", 0, 6}, {"rec", 0, 1}, {"mid", 0, 1}, {"n0", 0, 1}, {"n1", 0, 2}, {"n2", 0, 2}, {"n5", 0, 1}, {"n3", 0, 1}, {"n4", 0, 2}, {"nd", 1, 2}}, Reach: []string{"accepted", "rejected"}, Eager: true,
+			{Pkg: "template", Name: "vHarness_C01_call", Quick: []ParamRange{{"prefix", 0, 6}, {"rec", 0, 1}, {"mid", 0, 1}, {"twice", 0, 1}, {"n0", 0, 0}, {"n1", 0, 1}, {"n2", 0, 1}, {"n5", 0, 1}, {"n3", 0, 0}, {"n4", 0, 2}, {"nd", 1, 1}},
+				Thorough: []ParamRange{{"prefix", 0, 6}, {"rec", 0, 1}, {"mid", 0, 1}, {"twice", 0, 1}, {"n0", 0, 1}, {"n1", 0, 2}, {"n2", 0, 2}, {"n5", 0, 1}, {"n3", 0, 1}, {"n4", 0, 2}, {"nd", 1, 1}}, Reach: []string{"accepted", "rejected"}, Eager: true,
 				Filter: func(p map[string]int) bool {
-					return (p["mid"] == 0 || (p["prefix"] >= 2 && p["prefix"] <= 4)) && p["n0"]+p["n1"]+p["n2"]+p["n5"]+p["n3"]+p["n4"] <= 4
+					return (p["mid"] == 0 || (p["prefix"] >= 2 && p["prefix"] <= 4)) && (p["twice"] == 0 || p["mid"] == 0) && p["n0"]+p["n1"]+p["n2"]+p["n5"]+p["n3"]+p["n4"] <= 4
 				},
 				Desc: "composition over template calls: the real escapeTree / computeOutCtx / escapeTemplateBody (derived templates per start context, fixed-point rule for recursion) over main = P T0 {{template \"y\"}} T3 {{.}} T4 and y = T1 [{{if}}{{template \"y\"}}{{end}}] T2 M T5; the output assembled from the trees the escaper produced, for recursion depths 0..2, has the same token stream for an inert and a symbolic data value"},
+			{Pkg: "template", Name: "vHarness_C01_call", Quick: []ParamRange{{"prefix", 0, 0}, {"rec", 0, 0}, {"mid", 1, 1}, {"twice", 1, 1}, {"n0", 0, 0}, {"n1", 0, 0}, {"n2", 2, 2}, {"n5", 1, 1}, {"n3", 2, 2}, {"n4", 2, 2}, {"nd", 1, 1}},
+				Thorough: []ParamRange{{"prefix", 0, 1}, {"rec", 0, 1}, {"mid", 1, 1}, {"twice", 1, 1}, {"n0", 0, 0}, {"n1", 0, 1}, {"n2", 2, 2}, {"n5", 1, 1}, {"n3", 2, 2}, {"n4", 2, 2}, {"nd", 1, 1}}, Eager: true,
+				Desc: "a helper that opens a tag and an attribute (T2 \" title=\" T5), called twice from the same start context: the second call takes escapeTree's \"already escaped\" path"},
 			{Pkg: "template", Name: "vHarness_C01_shape", Quick: []ParamRange{{"prefix", 0, 11}, {"n0", 0, 1}, {"n1", 0, 1}, {"n2", 0, 1}, {"n3", 0, 1}, {"n4", 1, 1}, {"nd", 1, 1}},
-				Thorough: []ParamRange{{"prefix", 0, 11}, {"n0", 0, 2}, {"n1", 0, 2}, {"n2", 0, 2}, {"n3", 0, 2}, {"n4", 0, 2}, {"nd", 1, 2}}, Reach: []string{"accepted", "rejected"}, Eager: true,
-				Filter: func(p map[string]int) bool { return p["n0"]+p["n1"]+p["n2"]+p["n3"]+p["n4"] <= 5 },
+				Thorough: []ParamRange{{"prefix", 0, 11}, {"n0", 0, 1}, {"n1", 0, 2}, {"n2", 0, 1}, {"n3", 0, 2}, {"n4", 0, 2}, {"nd", 1, 2}}, Reach: []string{"accepted", "rejected"}, Eager: true,
+				Filter: func(p map[string]int) bool { return p["n0"]+p["n1"]+p["n2"]+p["n3"]+p["n4"] <= 4+2-p["nd"] },
 				Desc: "composition: the real escapeList / escapeBranch / join / escapeAction / escapeText over a hand-built tree P T0 {{if}}T1{{else}}T2{{end}} T3 {{.}} T4 with symbolic ASCII texts; the assembled output of both branches has the same token stream for an inert and a symbolic data value"},
 		},
 		Probes: []ProbeSpec{
@@ -484,9 +502,33 @@ func init() {
 	})
 
 	reg(&Prop{
+		ID:    "C05",
+		Title: "Templates that cannot be contextualized never produce output (sticky) - bounded histories, executor stubbed",
+		Harnesses: []HarnessSpec{
+			{Pkg: "template", Name: "vHarness_C05_sticky", Quick: []ParamRange{{"prefix", 0, 9}, {"n0", 0, 1}, {"n1", 0, 2}}, Thorough: []ParamRange{{"prefix", 0, 11}, {"n0", 0, 2}, {"n1", 0, 3}}, Reach: []string{"analysis-failed", "executed", "tohtml-error"},
+				Desc: "two calls chosen symbolically among Execute, ExecuteTemplate, ExecuteToHTML, ExecuteTemplateToHTML on main = P T0 {{.M}} T1 (symbolic ASCII texts), ExecuteTemplate on a caller of main and on an unrelated template, with a data value that decides whether execution fails at run time: once main's analysis has failed every later call on it or on its caller returns an error and writes nothing, its parse tree is gone, and the ToHTML variants return the zero HTML whenever they return an error"},
+			{Pkg: "template", Name: "vHarness_C08_history", Quick: []ParamRange{{"prefix", 0, 9}, {"n0", 0, 1}, {"n1", 0, 2}, {"n2", 0, 0}, {"n3", 0, 0}}, Thorough: []ParamRange{{"prefix", 0, 11}, {"n0", 0, 2}, {"n1", 0, 3}, {"n2", 0, 2}, {"n3", 0, 0}}, Reach: []string{"analysed", "failed"},
+				Desc: "the analysis half below the entry points: lookupAndEscapeTemplate / escape() histories (a failed analysis stays failed, drops the parse tree, and a caller of the failed template is not accepted)"},
+		},
+		Probes:    []ProbeSpec{},
+		Functions: []string{"template.(*Template).Execute, ExecuteTemplate, ExecuteToHTML, ExecuteTemplateToHTML, escape, lookupAndEscapeTemplate", "template.escapeTemplate, (*escaper).escapeTree, computeOutCtx, escapeTemplateBody, escapeList, escapeAction, escapeText, commit", "text/template New / AddParseTree / Lookup (stdlib SSA)", "uncheckedconversions.HTMLFromStringKnownToSatisfyTypeContract"},
+		Bounds: map[string]string{
+			"quick":    "histories of 2 calls over 6 operations; 10 concrete prefixes; texts T0 0..1 and T1 0..2 symbolic ASCII bytes; one symbolic run-time-failure flag",
+			"thorough": "12 prefixes; T0 0..2, T1 0..3",
+		},
+		Outside: []string{"text/template's executor is NOT encoded: it is a stub with the contract 'no parse tree => error and nothing written; otherwise arbitrary output, run-time error iff the data value requests it' - that the real executor honours this contract (and that its output is what the tree says) is assumed",
+			"histories longer than 2 calls; New / Clone / Parse* / Lookup interleavings; template sets other than main + one caller + one unrelated template; failure causes are those reachable with one text, one action, one text (non-text end context, action in a disallowed position, unsafe URL prefix) - undefined callees and recursive contexts are covered only by the C01/C08 harnesses' rejected paths",
+			"unwinding bound: 400 visits of one block per frame"},
+		Intrinsics: []string{"(*text/template.Template).Execute environment stub", "(*text/template.Template).Funcs as a no-op", "stateful sync.Mutex", "bytes.Buffer"},
+	})
+
+	reg(&Prop{
 		ID:    "C08",
 		Title: "Template API totality, reduced to the byte-level kernels: no panic, bounded loops",
 		Harnesses: []HarnessSpec{
+			{Pkg: "template", Name: "vHarness_C08_history", Quick: []ParamRange{{"prefix", 0, 9}, {"n0", 0, 1}, {"n1", 0, 2}, {"n2", 0, 2}, {"n3", 0, 2}}, Thorough: []ParamRange{{"prefix", 0, 11}, {"n0", 0, 2}, {"n1", 0, 3}, {"n2", 0, 2}, {"n3", 0, 2}}, Reach: []string{"analysed", "failed", "caller-analysed", "derived-analysed"},
+				Filter: func(p map[string]int) bool { return p["n2"] == 0 || p["n3"] == 0 },
+				Desc: "bounded call histories: two calls chosen symbolically among lookupAndEscapeTemplate(main | incomplete | undefined), escape() and Lookup over a hand-built set with symbolic ASCII texts: every call returns, the name-space mutex is free afterwards (a second Lock on a held mutex is reported as a deadlock), a failed analysis stays failed and drops the parse tree"},
 			{Pkg: "template", Name: "vHarness_C08_text", Quick: []ParamRange{{"elem", 0, 8}, {"attr", 0, 1}, {"n", 0, 3}}, Thorough: []ParamRange{{"elem", 0, 8}, {"attr", 0, 5}, {"n", 0, 5}}, Reach: []string{"ran"},
 				Filter: func(p map[string]int) bool {
 					e := p["elem"]
